@@ -56,7 +56,7 @@ def run(ctx):
     runs = [(part, w, name) for part, w in PARTS[ctx.tier] for name in ("h03n", "h03d")]
     for i, (part, w, name) in enumerate(runs):
         share = w / sum(x[1] for x in runs[i:])
-        budget = max(5, int((ctx.remaining() - 10) * min(1.0, share * 3.0)))
+        budget = max(30, int((ctx.remaining() - 10) * min(1.0, share * 3.0)))
         ctx.run_harness(exes[name], ["--part", part, "--deadline", str(budget)], shards=16)
     ctx.assume("an input counts as handled when parsing terminates and throws any exception derived from std::exception or delivers buffers; "
                "whether a damaged file is rejected or accepted with other content is not judged here (C02/C09)")
